@@ -326,7 +326,10 @@ def gen_C19(rng, count, tier):
             r = rng.random()
             if r < 0.7:
                 n = pick(rng, [0, 0, 3])
-                reqs.append(valid_head(rng, cl=(str(n).encode() if n or rng.random() < 0.3 else None), plain=True) + b"\r\n\r\n" + b"b" * n)
+                clv = str(n).encode() if n or rng.random() < 0.3 else None
+                if rng.random() < 0.15:
+                    clv = pick(rng, [b"12abc", b"-1", b"", b"abc", b" 3", b"3 ", b"+3", b"0x3"])     # unusual declared lengths
+                reqs.append(valid_head(rng, cl=clv, plain=True) + b"\r\n\r\n" + b"b" * n)
             elif r < 0.9:
                 reqs.append(bad_head(rng).replace(b"\r\n\r\n", b"\r\n") + b"\r\n\r\n")
             else:
@@ -562,6 +565,13 @@ def gen_C09(rng, count, tier):
         head = b"GET / HTTP/1.1" + b"".join(b"\r\n" + l for l in lines)
         head = head.replace(b"\r\n\r\n", b"\r\n")
         toks = ["cred:%s:%s" % (hx(a), hx(b2)) for a, b2 in table] + ["realm:" + hx(realm), "head:" + hx(head)]
+        # history: more requests on the same middleware, with credentials replaced in between
+        if rng.random() < 0.35 and table:
+            def req(u2, p2):
+                return "head:" + hx(b"GET / HTTP/1.1\r\nAuthorization: Basic " + base64.b64encode(u2 + b":" + p2))
+            u2, p2 = pick(rng, table)
+            newp = pick(rng, [b"changed", p2 + b"x", b""])
+            toks += [req(u2, p2), "cred:%s:%s" % (hx(u2), hx(newp)), req(u2, p2), req(u2, newp), req(u2, p2)]
         yield ("auth", " ".join(toks))
 
 
@@ -869,6 +879,11 @@ def gen_C13(rng, count, tier):
 # ------------------------------------------------------------------------------------ C10
 
 def gen_C10(rng, count, tier):
+    # connections that end during the TLS handshake are per-connection objects too
+    hello = bytes.fromhex("16030100c8010000c40303") + bytes(range(32))
+    for pay in [b"", b"\x16\x03\x01", hello, hello[:20], b"GET / HTTP/1.1\r\n\r\n"]:
+        yield ("tls", "tls raw:%s" % hx(pay))
+    yield ("tls", "tls ssl:%s" % hx(b"/x"))
     reqs = {
         "fs": [b"GET /big.bin HTTP/1.1\r\n\r\n", b"GET /in.txt HTTP/1.1\r\n\r\n", b"GET /sub HTTP/1.1\r\n\r\n", b"GET /big.bin HTTP/1.1\r\nRange: bytes=10-69000\r\n\r\n",
                b"GET /nonexistent HTTP/1.1\r\n\r\n", b"BAD\r\n\r\n", b"GET /edge.bin HTTP/1.1\r\n\r\n"],
@@ -918,6 +933,8 @@ def fuzz_api(rng):
 
 
 def gen_C11(rng, count, tier):
+    # liveness over real sockets: a client that never reads a huge response must not stall the engine
+    yield ("tls", "plain stall")
     for i in range(count):
         react = []
         for sig in ("hp", "rr", "rcf", "bw", "dc"):
@@ -961,6 +978,8 @@ def gen_C20(rng, count, tier):
                              b"\x16\x03\x01" + b"GET / HTTP/1.1\r\n\r\n", b"BAD\r\n\r\n"])
             if rng.random() < 0.2 and req:
                 j = rng.randrange(len(req)); req = req[:j] + bytes([req[j] ^ (1 << rng.randrange(8))]) + req[j + 1:]
+            if mode == "tls" and rng.random() < 0.25:
+                mode = "tls nocert"          # a TLS configuration that lacks a certificate is still a TLS configuration
             yield ("tls", "%s raw:%s" % (mode, hx(req)))
         else:
             t = "/" + "/".join(pick(rng, ["a", "b%20c", "x", ""]) for _ in range(rng.randrange(0, 3)))
